@@ -382,6 +382,9 @@ pub struct Gs2State {
 
 const GS2_TYPED: &[&str] = &["hostname", "mapname", "password", "maxplayers", "minplayers", "numplayers"];
 
+/// The largest GameSpy 2 reply the model sends (one datagram).
+pub const GS2_MAX_REPLY: usize = 4096;
+
 const NUL_EXCL: &[char] = &[];
 
 pub fn gs2_state() -> impl Strategy<Value = Gs2State> {
@@ -419,8 +422,8 @@ pub fn gs2_state() -> impl Strategy<Value = Gs2State> {
                 col_order,
                 team_cols_swapped,
             };
-            // the reply is one datagram of at most 1024 bytes
-            while st.encode().len() > 1024 {
+            // the reply is one datagram
+            while st.encode().len() > GS2_MAX_REPLY {
                 if st.players.len() > 1 {
                     let n = st.players.len() * 3 / 4;
                     st.players.truncate(n);
